@@ -55,7 +55,7 @@ M = {
  "c19_emptied_key_kept": (["C19"], [(SP, "    if len(latter_map[former]) == 0:\n        del latter_map[former]", "    if len(latter_map[former]) == 0 and former % 4 == 0:\n        del latter_map[former]", 1)]),
  "c19_accessor_not_updated_for_T": (["C19"], [(SP, "    accessor[former, latter_value] = -1\n", "    accessor[former, latter_value % 3] = -1\n", 1)]),
  "c20_latter_map_to_accessor_mutates": (["C20", "C14"], [(GR, "            for latter_vertex in latter_vertices:\n                accessor[former_vertex, latter_vertex % len(nucleotides)] = latter_vertex", "            latter_vertices.sort()\n            for latter_vertex in latter_vertices:\n                accessor[former_vertex, latter_vertex % len(nucleotides)] = latter_vertex", 1)]),
- "c20_verbose_divides_by_zero": (["C20"], [(SP, "    if verbose:\n        print(str(round(valid_rate * 100, 2)) + \"% (\" + str(sum(vertices)) + \") valid vertices are collected.\")", "    if verbose:\n        print(str(round(100 / (len(vertices) - sum(vertices)), 2)) + \"% (\" + str(sum(vertices)) + \") valid vertices are collected.\")", 1)]),
+ "c20_verbose_divides_by_zero": (["C20"], [(SP, "    if verbose:\n        print(str(round(valid_rate * 100, 2)) + \"% (\" + str(sum(vertices)) + \") valid vertices are collected.\")", "    if verbose:\n        print(str(round(100 / (len(vertices) - int(sum(vertices))), 2)) + \"% (\" + str(sum(vertices)) + \") valid vertices are collected.\")", 1)]),
  "c20_module_level_cache": (["C20"], [(GR, "def obtain_vertices(accessor):", "_VERTEX_CACHE = {}\n\n\ndef obtain_vertices(accessor):", 1), (GR, "    return where(sum(((accessor + 1).astype(bool)), axis=1).astype(bool) == 1)[0].astype(int)", "    key = (id(accessor), accessor.shape)\n    if key not in _VERTEX_CACHE:\n        _VERTEX_CACHE[key] = where(sum(((accessor + 1).astype(bool)), axis=1).astype(bool) == 1)[0].astype(int)\n    return _VERTEX_CACHE[key]", 1)]),
 }
 
